@@ -77,4 +77,42 @@ theorem calculate_sound' (op : Op) (x y r v : Int) (h : calculate op x y = some 
   all_goals
     simp at h hc; subst h; subst hc; first | rfl | (unfold b2i; simp <;> (try omega))
 
+/-! ## Impossible values through compound assignments -/
+
+/-- bound of an Impossible value -/
+inductive IBound | point | upper | lower
+  deriving DecidableEq, Repr
+
+/-- what an Impossible value `v` with bound `b` says about the variable's value `x` -/
+def impHolds (b : IBound) (v x : Int) : Prop :=
+  match b with
+  | .point => x ≠ v
+  | .upper => v < x
+  | .lower => x < v
+
+instance (b : IBound) (v x : Int) : Decidable (impHolds b v x) := by unfold impHolds; cases b <;> exact inferInstance
+
+/-- the value of `x` after the statement (C semantics on a type at least as wide as `int`, no overflow: otherwise the execution
+    has undefined behaviour and is outside the property) -/
+def assignSem (op : String) (k x : Int) : Int :=
+  match op with
+  | "+=" => x + k | "-=" => x - k | "*=" => x * k | "/=" => Int.tdiv x k | "++" => x + 1 | "--" => x - 1 | _ => x
+
+theorem carry_shift_sound (op : String) (hop : op = "+=" ∨ op = "-=" ∨ op = "++" ∨ op = "--") (b : IBound) (k v v' x : Int)
+    (hc : carryImpossible op k v = some v') (hin : inI64 (assignSem op k v)) (h : impHolds b v x) :
+    impHolds b v' (assignSem op k x) := by
+  rcases hop with rfl | rfl | rfl | rfl <;>
+    simp [carryImpossible, carryOps, calculate, assignSem] at hc hin ⊢ <;>
+    rw [wrap64_of_in _ hin] at hc <;> subst hc <;> cases b <;> simp [impHolds] at h ⊢ <;> omega
+
+theorem carry_mul_pos_sound (b : IBound) (k v v' x : Int) (hk : 0 < k)
+    (hc : carryImpossible "*=" k v = some v') (hin : inI64 (v * k)) (h : impHolds b v x) :
+    impHolds b v' (assignSem "*=" k x) := by
+  simp [carryImpossible, carryOps, calculate, assignSem] at hc ⊢
+  rw [wrap64_of_in _ hin] at hc; subst hc
+  cases b <;> simp only [impHolds] at h ⊢
+  · intro e; exact h (Int.eq_of_mul_eq_mul_right (by omega) e)
+  · exact Int.mul_lt_mul_of_pos_right h hk
+  · exact Int.mul_lt_mul_of_pos_right h hk
+
 end Cppcheck.Calc
